@@ -4,6 +4,8 @@ import (
 	"encoding/base64"
 	"errors"
 	"fmt"
+	"os"
+	"path/filepath"
 	"strings"
 
 	"evylang.dev/evy/learn/pkg/learn"
@@ -220,6 +222,64 @@ func RunC20(d *Driver) *Report {
 			r.Violation(Case{Stream: "seal-sequence", Input: fm, Real: strings.Join(steps, "; "), Spec: "after re-sealing a changed answer, verification and unsealing use the new answer"})
 		}
 	}
+	nprog := c20ProgramChoices(r)
+	r.Rule += fmt.Sprintf("; %d verifications of questions whose choices are programs that are really run, the same programs used in a text and in an SVG question of one process, in both orders, all subsets of marks", nprog)
 	r.DriverCalls = d.N
 	return r
+}
+
+// c20ProgramChoices: questions whose choices are programs that are really run (evy:source), the same
+// programs used by a text question and by an SVG question in one process, in both orders: Verify must
+// accept exactly when the marked choices are the ones whose output (of the question's kind) matches.
+func c20ProgramChoices(r *Report) int {
+	n := 0
+	type set struct {
+		files             map[string]string
+		textTruth, svgTru string
+		expect            string
+	}
+	sets := []set{
+		{map[string]string{"prog.a.evy": "print \"hi\"\nmove 50 50\ncircle 10\n", "prog.b.evy": "print \"ho\"\nmove 50 50\ncircle 20\n", "prog.c.evy": "print \"hi\"\nmove 30 30\ncircle 10\n", "pic.evy": "move 50 50\ncircle 10\n"}, "a, c", "a", "hi"},
+		{map[string]string{"prog.a.evy": "print 1+1\nrect 10 10\n", "prog.b.evy": "print 2\nmove 10 10\nrect 10 10\n", "prog.c.evy": "print \"2\"\nrect 10 10\n", "pic.evy": "rect 10 10\n"}, "a, b, c", "a, c", "2"},
+		{map[string]string{"prog.a.evy": "print \"x\"\nline 5 5\n", "prog.b.evy": "print \"y\"\nline 5 5\n", "prog.c.evy": "print \"x\"\nline 6 6\n", "pic.evy": "line 6 6\n"}, "a, c", "c", "x"},
+	}
+	subsets := []string{"a", "b", "c", "a, b", "a, c", "b, c", "a, b, c"}
+	for si, st := range sets {
+		for _, order := range [][]string{{"text", "svg"}, {"svg", "text"}} {
+			base, err := os.MkdirTemp("", "verif-c20-")
+			if err != nil {
+				continue
+			}
+			dir := filepath.Join(base, fmt.Sprintf("course%d%s", si, order[0]), "unit", "exercise")
+			os.MkdirAll(dir, 0o777) //nolint
+			for name, content := range st.files {
+				os.WriteFile(filepath.Join(dir, name), []byte(content), 0o666) //nolint
+			}
+			choices := "- [answer](prog.a.evy \"evy:source\")\n- [answer](prog.b.evy \"evy:source\")\n- [answer](prog.c.evy \"evy:source\")\n"
+			for _, kind := range order {
+				md, truth := "Which programs print this?\n\n```\n"+st.expect+"\n```\n\n"+choices, st.textTruth
+				if kind == "svg" {
+					md, truth = "Which programs draw this?\n\n[question](pic.evy \"evy:svg\")\n\n"+choices, st.svgTru
+				}
+				for _, marked := range subsets {
+					fm := "type: question\nanswer-type: multiple-choice\nanswer: " + marked + "\n"
+					fname := filepath.Join(dir, kind+"-"+strings.ReplaceAll(marked, ", ", "")+".md")
+					q, err := learn.NewQuestionModel(fname, learn.WithRawMD(fm, md))
+					n++
+					r.Count(fmt.Sprintf("verify-programs:%d:%v:%s:%s", si, order, kind, marked), true)
+					if err != nil {
+						r.Disagree(Case{Stream: "verify-programs", Input: fm + "---\n" + md, Real: "cannot build: " + err.Error()})
+						continue
+					}
+					accepted := q.Verify() == nil
+					if accepted != (marked == truth) {
+						r.Violation(Case{Stream: "verify-programs", Input: map[string]any{"files": st.files, "frontmatter": fm, "markdown": md, "question kinds in this process": order},
+							Real: fmt.Sprintf("accepted=%v", accepted), Spec: fmt.Sprintf("a %s question is accepted exactly when the marked choices are those whose %s output matches: %q", kind, kind, truth)})
+					}
+				}
+			}
+			os.RemoveAll(base)
+		}
+	}
+	return n
 }
